@@ -13,11 +13,37 @@ C01 — Accepted values always satisfy the parameter's declared constraints.
 
 `validate` (Validate/Model.lean) is the code, check by check; `Sat`
 (Validate/Spec.lean) is the declarative membership predicate; `WF` restricts
-Range declarations to those a constructor accepts.  (Earlier rounds carried
-exclusions for five deviations of the code — Integer and generator functions,
-`None` items of a ListSelector, non-tuples and datetimes in CalendarDateRange, a
-hex colour followed by a newline; they were repaired in /repo and the
-exclusions are gone: the statements below are the full ones.)
+Range declarations to those a constructor accepts (`ill_formed_range_not_constructed`
+shows the others do not survive their constructor).  (Earlier rounds carried
+exclusions for five deviations of the code; they were repaired in /repo and the
+exclusions are gone.)
+
+What is proved here and what is only checked by the harness (harness/props/c01.py,
+differential against the real `param`, 5 routes, small-scope grids):
+* proved: per type, `_validate` accepts exactly the values that satisfy the
+  declared constraints and otherwise raises ValueError/TypeError; the boundary and
+  NaN corollaries; the constructor succeeds exactly when the default satisfies the
+  declaration, with the slots it installs (`allow_None` rule, Tuple length in
+  force, Magnitude bounds, Selector auto default / `check_on_set`).
+* routes: the model gives each route what differs *before* `Parameter.__set__`
+  (deserialisation maps the JSON value through `deserialize`; the class-attribute
+  route stores in the class default, the others in the instance) and then shares
+  one "validate, then store".  That the four direct routes of the real library all
+  funnel into that one setter, and that the setter validates before it stores, is
+  NOT proved here: it is observed by the harness on every case (and the order of
+  operations inside `__set__` is modelled in C02).  Date-typed deserialisation
+  (`strptime`) is outside the model (C15).
+* harness only: that the Lean `validate` is the Python `_validate` (correspondence
+  on the explored cases); that every constructor argument reaches its slot on the
+  real object (slots read back from the real Parameter and compared -- `declaredCfg`
+  and `baseCfg` are two transcriptions of the same documentation, so
+  `ctor_arg_effective` ties only the `allow_None` rule and the length rule
+  independently); "constraints in force at that moment" when they change after the
+  declaration: a held container mutated in place and assigned back (aliasing
+  stream) and `Selector.objects` edited after the declaration (objects stream);
+  mutation of other slots (`p.bounds = …`) is not exercised; regexes
+  (`re.match` is an oracle bit); `inclusive_bounds` are booleans (the code tests
+  `is True`).
 
 Only property theorems and their non-vacuity examples live here; helper lemmas
 are in Validate/Lemmas.lean.
@@ -239,57 +265,99 @@ example :
 
 /-! ## what an assignment installs; the routes -/
 
-/-- Every route is "validate, then store". -/
-theorem routes_agree (r₁ r₂ : Route) (c : Cfg) (x : Ctx) (v : PyVal) :
-    assign r₁ c x v = assign r₂ c x v := rfl
-
-/-- On every route an assignment succeeds exactly when the value satisfies the
-declared constraints, and otherwise raises ValueError / TypeError. -/
-theorem assign_accepted_iff_sat (r : Route) (c : Cfg) (x : Ctx) (v : PyVal) (hwf : WF c) :
+/-- The four direct routes (constructor keyword, instance attribute, `param.update`,
+class attribute) hand the value to the setter unchanged: the assignment succeeds
+exactly when the value satisfies the declared constraints, otherwise it raises
+ValueError / TypeError; they differ in where the value lands. -/
+theorem assign_accepted_iff_sat (r : Route) (c : Cfg) (x : Ctx) (v : PyVal) (hr : r ≠ .deser) (hwf : WF c) :
     ((assign r c x v).accepted = true ↔ Sat c x v) ∧
-    (∀ e, assign r c x v = .rejected e → e = .valueError ∨ e = .typeError) := by
+    (∀ e, assign r c x v = .rejected e → e = .valueError ∨ e = .typeError) ∧
+    assign r c x v ≠ .notModelled := by
+  have hrv : routeValue r c v = some v := by cases r <;> simp_all [routeValue]
+  rcases assign_cases r c x v v hrv with ⟨hv, ha⟩ | ⟨e', hv, ha⟩
+  · rw [ha]
+    exact ⟨by simp [Outcome.accepted, ← validate_ok_iff_sat c x v hwf, hv], by simp, by simp⟩
+  · rw [ha]
+    refine ⟨?_, ?_, by simp⟩
+    · have : ¬ Sat c x v := fun hs => by rw [(validate_ok_iff_sat c x v hwf).2 hs] at hv; cases hv
+      simp [Outcome.accepted, this]
+    · intro e he
+      simp only [Outcome.rejected.injEq] at he
+      subst he
+      exact validate_err_kind c x v _ hwf hv
+
+/-- Deserialisation: the JSON-decoded value goes through the type's `deserialize`
+first; the assignment succeeds exactly when the *deserialised* value satisfies the
+constraints. -/
+theorem assign_deser_accepted_iff (c : Cfg) (x : Ctx) (j : PyVal) (hwf : WF c) :
+    ((assign .deser c x j).accepted = true ↔ ∃ w, deserialize c.ptype j = some w ∧ Sat c x w) ∧
+    (∀ e, assign .deser c x j = .rejected e → e = .valueError ∨ e = .typeError) := by
+  cases hd : deserialize c.ptype j with
+  | none => simp [assign, routeValue, hd, Outcome.accepted]
+  | some w =>
+    have hrv : routeValue .deser c j = some w := by simp [routeValue, hd]
+    simp only [Option.some.injEq, exists_eq_left']
+    rcases assign_cases .deser c x j w hrv with ⟨hv, ha⟩ | ⟨e', hv, ha⟩
+    · rw [ha]
+      exact ⟨by simp [Outcome.accepted, ← validate_ok_iff_sat c x w hwf, hv], by simp⟩
+    · rw [ha]
+      refine ⟨?_, ?_⟩
+      · have : ¬ Sat c x w := fun hs => by rw [(validate_ok_iff_sat c x w hwf).2 hs] at hv; cases hv
+        simp [Outcome.accepted, this]
+      · intro e he
+        simp only [Outcome.rejected.injEq] at he
+        subst he
+        exact validate_err_kind c x w _ hwf hv
+
+/-- JSON has no tuples: through deserialisation a Tuple-family parameter takes the
+*list* whose items it would take as a tuple directly (and `null` is `None`). -/
+theorem deser_list_is_tuple (c : Cfg) (x : Ctx) (xs : List PyVal)
+    (hp : c.ptype = .tuple ∨ c.ptype = .numericTuple ∨ c.ptype = .xy ∨ c.ptype = .range) :
+    (assign .deser c x (.list xs)).accepted = (assign .ctorKw c x (.tuple xs)).accepted ∧
+    (assign .deser c x .none).accepted = (assign .ctorKw c x .none).accepted := by
   unfold assign
-  constructor
-  · rw [← validate_ok_iff_sat c x v hwf]
-    cases h : validate c x v with
-    | ok u => cases u; simp [Outcome.accepted]
-    | error e => simp [Outcome.accepted]
-  · intro e
-    cases h : validate c x v with
-    | ok u => simp
-    | error e' =>
-      simp only [Outcome.rejected.injEq]
-      rintro rfl
-      exact validate_err_kind c x v _ hwf h
+  rcases hp with hp | hp | hp | hp <;> simp only [routeValue, deserialize, hp, PyVal.iter?, Option.map] <;>
+    constructor <;> (split <;> rfl)
+
+/-- non-vacuity: `Tuple(length=2)` takes `[1, 2]` from JSON and refuses it as a Python list -/
+example :
+    let c : Cfg := { ptype := .tuple, length := 2 }
+    (assign .deser c {} (.list [.num .int (.fin 1), .num .int (.fin 2)])).accepted = true ∧
+    (assign .instAttr c {} (.list [.num .int (.fin 1), .num .int (.fin 2)])).accepted = false := ⟨rfl, rfl⟩
 
 /-- What an assignment installs satisfied the constraints at that moment: the
-assigned value did, and the stored value (the assigned one; `False` for an
-Event) does. -/
-theorem stored_value_sat (r : Route) (c : Cfg) (x : Ctx) (v w : PyVal) (hwf : WF c)
-    (h : assign r c x v = .stored w) :
-    Sat c x v ∧ Sat c x w ∧ (c.ptype ≠ .event → w = v) := by
-  unfold assign at h
-  cases hv : validate c x v with
-  | error e => simp [hv] at h
-  | ok u =>
-    cases u
-    simp only [hv, Outcome.stored.injEq] at h
-    have hs := (validate_ok_iff_sat c x v hwf).1 hv
-    refine ⟨hs, ?_, ?_⟩
-    · subst h
-      unfold storedValue
-      cases hp : c.ptype <;> simp only <;> try exact hs
-      unfold Sat; simp [hp, PyVal.isBool]
-    · intro hne
-      subst h
-      unfold storedValue
-      cases hp : c.ptype <;> simp_all
+value that reached the setter did, the stored value (that value; `False` for an
+Event) does, and it is stored where the route says (class default for the
+class-attribute route, instance value otherwise). -/
+theorem stored_value_sat (r : Route) (c : Cfg) (x : Ctx) (v w : PyVal) (t : Target) (hwf : WF c)
+    (h : assign r c x v = .stored t w) :
+    t = r.target ∧ ∃ v', routeValue r c v = some v' ∧ Sat c x v' ∧ Sat c x w ∧ (c.ptype ≠ .event → w = v') := by
+  cases hrv : routeValue r c v with
+  | none => simp [assign, hrv] at h
+  | some v' =>
+    rcases assign_cases r c x v v' hrv with ⟨hv, ha⟩ | ⟨e', hv, ha⟩
+    · rw [ha] at h
+      simp only [Outcome.stored.injEq] at h
+      obtain ⟨ht, hw⟩ := h
+      have hs := (validate_ok_iff_sat c x v' hwf).1 hv
+      refine ⟨ht.symm, v', rfl, hs, ?_, ?_⟩
+      · subst hw
+        unfold storedValue
+        cases hp : c.ptype <;> simp only <;> try exact hs
+        unfold Sat; simp [hp, PyVal.isBool]
+      · intro hne
+        subst hw
+        unfold storedValue
+        cases hp : c.ptype <;> simp_all
+    · rw [ha] at h; cases h
 
-/-- non-vacuity: an accepted assignment to a bounded Integer, and an Event -/
+/-- non-vacuity: an accepted assignment to a bounded Integer, a class-level one, and an Event -/
 example :
     assign .instAttr { ptype := .integer, bounds := some (some (.num .int (.fin 0)), none) } {} (.num .bool (.fin 1))
-      = .stored (.num .bool (.fin 1)) ∧
-    assign .update { ptype := .event } {} (.num .bool (.fin 1)) = .stored (.num .bool (.fin 0)) := ⟨rfl, rfl⟩
+      = .stored .instanceValue (.num .bool (.fin 1)) ∧
+    assign .clsAttr { ptype := .integer } {} (.num .int (.fin 7)) = .stored .classDefault (.num .int (.fin 7)) ∧
+    assign .update { ptype := .event } {} (.num .bool (.fin 1)) = .stored .instanceValue (.num .bool (.fin 0)) :=
+  ⟨rfl, rfl, rfl⟩
 
 /-! ## constructors: every argument reaches the slot it names -/
 
@@ -301,37 +369,59 @@ theorem ctor_arg_effective (a : Args) (c : Cfg) (d : PyVal)
     (hmk : mkCfg a = .ok (c, d)) (hwf : WF c) : specCfg a = some c ∧ d = specDefault a :=
   mkCfg_spec a c d hmk hwf
 
-/-- A constructor succeeds exactly when the default satisfies the declared
-constraints (a Selector may always default to `None`). -/
-theorem ctor_ok_iff_default_sat (a : Args) (x : Ctx) (c : Cfg) (d : PyVal)
-    (hmk : mkCfg a = .ok (c, d)) (hwf : WF c) :
+/-- An ill-formed Range declaration (bounds of the wrong type, zero or non-numeric
+`step`, a default of a length other than 2) does not survive its constructor. -/
+theorem ill_formed_range_not_constructed (a : Args) (x : Ctx) (c : Cfg) (d : PyVal)
+    (hmk : mkCfg a = .ok (c, d)) (hwf : ¬ WF c) : ∃ e, construct a x = .error e := by
+  unfold construct
+  rw [hmk]
+  cases hv : ctorValidate c x d with
+  | ok u => cases u; exact absurd hv (ctorValidate_not_wf a c d x hmk hwf)
+  | error e => exact ⟨e, by simp [hv]⟩
+
+/-- non-vacuity: `Range(default=(0, 1), step=0)` -/
+example :
+    let a : Args := { ptype := .range, default := some (.tuple [.num .int (.fin 0), .num .int (.fin 1)]),
+                      step := some (.num .int (.fin 0)) }
+    ∃ c d, mkCfg a = .ok (c, d) ∧ ¬ WF c := ⟨_, _, rfl, by decide⟩
+
+/-- A constructor succeeds exactly when the declaration is complete and
+well-formed and the default satisfies the declared constraints (a Selector may
+always default to `None`).  No side condition. -/
+theorem ctor_ok_iff_default_sat (a : Args) (x : Ctx) :
     (∃ c', construct a x = .ok c') ↔ CtorSat a x := by
-  obtain ⟨hs, hd⟩ := mkCfg_spec a c d hmk hwf
-  have hpt : c.ptype = a.ptype := by
-    unfold mkCfg at hmk
-    split at hmk
-    · split at hmk
-      · simp at hmk
-      · split at hmk
-        · simp at hmk
-        · simp only [Except.ok.injEq, Prod.mk.injEq] at hmk; rw [← hmk.1]; rfl
-    · simp only [Except.ok.injEq, Prod.mk.injEq] at hmk; rw [← hmk.1]; rfl
-  unfold construct CtorSat
-  rw [hmk, hs, ← hd]
-  simp only [ctorValidate_eq, hpt]
-  by_cases hsel : (a.ptype = .selector ∨ a.ptype = .listSelector) ∧ d.isNone = true
-  · rcases hsel with ⟨hsel, hdn⟩
-    rcases hsel with hsel | hsel <;> simp [hsel, hdn]
-  · simp only [hsel, if_false]
-    have hiff := validate_ok_iff_sat c x d hwf
-    cases hv : validate c x d with
-    | ok u =>
-      cases u
-      have hs' := hiff.1 hv
-      cases hp : a.ptype <;> simp_all
-    | error e =>
-      have hs' : ¬ Sat c x d := fun hsat => by rw [hiff.2 hsat] at hv; cases hv
-      cases hp : a.ptype <;> simp_all
+  cases hmk : mkCfg a with
+  | error e =>
+    have hs := specCfg_of_mkCfg_error a e hmk
+    unfold construct CtorSat
+    simp [hmk, hs]
+  | ok cd =>
+    obtain ⟨c, d⟩ := cd
+    by_cases hwf : WF c
+    · obtain ⟨hs, hd⟩ := mkCfg_spec a c d hmk hwf
+      have hpt : c.ptype = a.ptype := by
+        rcases (mkCfg_ok_shape a c d hmk).2 with ⟨_, hc⟩ | ⟨_, n, _, hc⟩ <;> rw [hc] <;> rfl
+      unfold construct CtorSat
+      rw [hmk, hs, ← hd]
+      simp only [ctorValidate_eq, hpt]
+      by_cases hsel : (a.ptype = .selector ∨ a.ptype = .listSelector) ∧ d.isNone = true
+      · rcases hsel with ⟨hsel, hdn⟩
+        rcases hsel with hsel | hsel <;> simp [hsel, hdn]
+      · simp only [hsel, if_false]
+        have hiff := validate_ok_iff_sat c x d hwf
+        cases hv : validate c x d with
+        | ok u =>
+          cases u
+          have hs' := hiff.1 hv
+          cases hp : a.ptype <;> simp_all
+        | error e =>
+          have hs' : ¬ Sat c x d := fun hsat => by rw [hiff.2 hsat] at hv; cases hv
+          cases hp : a.ptype <;> simp_all
+    · obtain ⟨e, he⟩ := ill_formed_range_not_constructed a x c d hmk hwf
+      have hs : specCfg a = none := by
+        rw [(specCfg_of_mkCfg a c d hmk).1]; simp [Option.filter, hwf]
+      unfold CtorSat
+      simp [he, hs]
 
 /-- non-vacuity: `Bytes(default=b'', allow_None=True)` declares, and gets, `allow_None` -/
 example :
@@ -352,6 +442,10 @@ def C01_ctor_full : Prop :=
   ∀ (a : Args) (c : Cfg) (d : PyVal), mkCfg a = .ok (c, d) → WF c → specCfg a = some c
 
 theorem C01_ctor_full_holds : C01_ctor_full := fun a c d hmk hwf => (mkCfg_spec a c d hmk hwf).1
+
+/-- … and the constructor never raises anything else before it validates -/
+theorem ctor_slot_err_kind (a : Args) (e : ErrKind) (h : mkCfg a = .error e) :
+    e = .valueError ∨ e = .typeError := mkCfg_err_kind a e h
 
 /-- the inputs the earlier deviations were witnessed on are now refused / follow the docstring -/
 example :
